@@ -339,24 +339,39 @@ def roundtrip_histories(hid0, rng, tmpdir, thorough):
     from ..proj import val
     for clsname in ("DenseTwoWayDHAdditiveGeneticVarianceMatrix", "DenseTwoWayDHAdditiveGenicVarianceMatrix"):
         cls = imp("pybrops.model.vmat." + clsname, clsname)
-        for rep in range(3 if thorough else 2):
-            n = rng.randrange(2, 5); t = rng.randrange(1, 3)
+        # rep 0-1: as built; then matrices that were edited in place before the export (sorted / reordered along the trait or
+        # taxa axis: the stored array is then a view with another memory layout) or built on a Fortran-ordered array
+        preps = ["none", "none", "sort_trait", "reorder_trait", "reorder_taxa", "sort_taxa", "fortran"] + (["none", "reorder_trait", "fortran"] if thorough else [])
+        for rep, prep in enumerate(preps):
+            n = rng.randrange(2, 5); t = rng.randrange(1, 3) if prep == "none" else rng.randrange(2, 4)
             names = rng.sample(["c1", "a7", "b2", "zz", "Ña"], n)
             if rep == 0:
                 names = sorted(names)
             m = np.array([[[rng.randrange(0, 40) / 8.0 for _ in range(t)] for _ in range(n)] for _ in range(n)])
-            m = (m + m.transpose(1, 0, 2)) / 2.0
+            if rep % 2 == 0:
+                m = (m + m.transpose(1, 0, 2)) / 2.0            # (the export must not rely on symmetry: odd reps are not symmetric)
+            if prep == "fortran":
+                m = np.asfortranarray(m)
             o = cls(mat=m, taxa=np.array(names, dtype=object), taxa_grp=np.array([rng.randrange(1, 3) for _ in range(n)], dtype="int64"),
                     trait=np.array(sorted(["y%d" % k for k in range(t)], reverse=(rep == 1)), dtype=object))
+            if prep == "sort_trait":
+                o.sort_trait()
+            elif prep == "reorder_trait":
+                pm = list(range(t)); rng.shuffle(pm); o.reorder_trait(np.array(pm))
+            elif prep == "reorder_taxa":
+                pm = list(range(n)); rng.shuffle(pm); o.reorder_taxa(np.array(pm))
+            elif prep == "sort_taxa":
+                o.sort_taxa()
+            sfx = "" if prep == "none" else "[after %s]" % prep
             hid += 1
-            ev = [same("canonical(from_pandas(to_pandas()))", canon(o), lambda: canon(cls.from_pandas(o.to_pandas()))),
+            ev = [same("canonical(from_pandas(to_pandas()))" + sfx, canon(o), lambda: canon(cls.from_pandas(o.to_pandas()))),
                   same("positional(from_pandas(to_pandas()))", restrict(proj(o), ("mat", "taxa", "taxa_grp", "trait")),
                        lambda: restrict(proj(cls.from_pandas(o.to_pandas())), ("mat", "taxa", "taxa_grp", "trait")))]
             fn = os.path.join(tmpdir, "vm%d.csv" % hid)
             def csv_rt():
                 o.to_csv(fn)
                 return canon(cls.from_csv(fn))
-            ev.append(same("canonical(from_csv(to_csv()))", canon(o), csv_rt))
+            ev.append(same("canonical(from_csv(to_csv()))" + sfx, canon(o), csv_rt))
             out.append({"id": hid, "cls": clsname, "ev": ev})
     # ---- genetic maps (positions written in cM are read as cM)
     for clsname in ("StandardGeneticMap", "ExtendedGeneticMap"):
